@@ -1,4 +1,4 @@
-"""pyvc.extract -- locate the real functions in /repo on every run.
+"""pvc.extract -- locate the real functions in /repo on every run.
 
 Nothing is copied by hand: the AST handed to the symbolic executor is
 ast.parse() of the file as it is on disk now.
